@@ -219,6 +219,34 @@ impl<'a> World<'a> {
         }
     }
 
+    /// C05 (iv): enumerating the objects of a type (`cob::list`, what `all()`, counts and cache
+    /// population use) evaluates every object exactly like `cob::get` from the same repository.
+    pub fn check_list(&mut self, r: usize) {
+        let own = self.own.clone();
+        let repo = self.repo(r);
+        let name = self.reps[r].name.clone();
+        let mut listed: BTreeMap<ObjectId, String> = BTreeMap::new();
+        if let Ok(v) = radicle::cob::list::<issue::Issue, _>(&repo, &issue::TYPENAME) {
+            for o in v {
+                listed.insert(*o.id(), json(&o.object));
+            }
+        }
+        if let Ok(v) = radicle::cob::list::<patch::Patch, _>(&repo, &patch::TYPENAME) {
+            for o in v {
+                listed.insert(*o.id(), json(&o.object));
+            }
+        }
+        for (is_issue, id) in self.objects() {
+            let Some((state, _, _)) = eval(&repo, is_issue, &id) else { continue };
+            self.res.hit("probe.c05.list_compared_with_get");
+            match listed.get(&id) {
+                Some(l) if *l == state => {}
+                Some(_) => self.res.violate(&own, "C05", "C05/list-differs-from-get", format!("{name}: enumerating the objects evaluates {} differently from loading it by id (same repository, same changes)", self.oname(&id))),
+                None => self.res.violate(&own, "C05", "C05/list-misses-object", format!("{name}: {} evaluates when loaded by id but is missing from the enumeration", self.oname(&id))),
+            }
+        }
+    }
+
     /// C05 (i): replicas whose refs point at the same tips of an object evaluate it identically.
     pub fn check_pairwise(&mut self) {
         let own = self.own.clone();
